@@ -346,7 +346,7 @@ Qed.
 Theorem quiet_step_ext T w s w' r :
   wf w -> step_quiet T w s = true -> exec_step T w s = Some (w', r) -> ext w w' /\ wf w'.
 Proof.
-  intros W Q H. destruct s as [cls l|recv mn args chs wrap]; cbn in H, Q.
+  intros W Q H. destruct s as [cls l|recv mn args chs wrap]; cbn in H, Q; [|unfold exec_call in H].
   - eapply new_obj_inv; eauto using ext_refl.
   - destruct (nth_error (objs w) recv) as [ob|] eqn:E; [|discriminate].
     destruct (find_class T (ocls ob)) as [c|] eqn:FC; [|discriminate].
